@@ -18,7 +18,7 @@ import time
 
 sys.path.insert(0, os.path.dirname(os.path.abspath(__file__)))
 
-from sa.core import Source, Run, REPO, AnalysisError  # noqa: E402
+from sa.core import Source, Run, REPO, AnalysisError, load_known  # noqa: E402
 
 sys.setrecursionlimit(10000)
 
@@ -55,6 +55,8 @@ def run_one(m: dict) -> tuple[str, bool, str]:
             if m["expect"] == "ERROR":
                 return m["name"], True, f"analysis refused: {e}"
             return m["name"], False, f"ANALYSIS-ERROR {e}"
+        known = {(k["property"], k["key"]) for k in load_known().get("findings", [])}
+        run.findings = [f for f in run.findings if (m["pid"], f.key) not in known]
         rules = sorted({f.rule for f in run.findings})
         exp = m["expect"]
         if exp == "SILENT":
